@@ -254,7 +254,48 @@ func runReflectSafe(p *core.Prog) *core.Result {
 		})
 	}
 	res.Count("reflect Index calls", n)
+	// (c) calling through reflection: a nil func value (a nil func-typed struct field or map element
+	// wrapped for script) makes reflect.Value.Call panic "call of nil function"
+	nCall := 0
+	for _, fn := range p.Funcs {
+		if fn.Pkg == nil || fn.Pkg.Pkg.Path() != core.GojaPath {
+			continue
+		}
+		core.AllInstrs(fn, func(in ssa.Instruction) {
+			c, ok := in.(*ssa.Call)
+			if !ok || !isReflectMethod(&c.Call, "Call") {
+				return
+			}
+			nCall++
+			key := fmt.Sprintf("%s:reflect Call#%d", core.FuncName(fn), nCall)
+			recv := c.Call.Args[0]
+			guarded := false
+			for _, cp := range core.ControllingConds(in.Block()) {
+				g, ok := cp.Cond.(*ssa.Call)
+				if ok && isReflectMethod(&g.Call, "IsNil") && !cp.Pol && sameReflectValue(g.Call.Args[0], recv) {
+					guarded = true
+				}
+			}
+			if guarded {
+				res.OK(key, p.Pos(c.Pos()), "under !value.IsNil()")
+			} else {
+				res.Bad(key, p.Pos(c.Pos()), "reflect.Value.Call on a func value that may be nil (a nil func field of a wrapped struct): 'reflect: call of nil function' escapes to the host; test IsNil() and throw a TypeError")
+			}
+		})
+	}
+	res.Count("reflect Call sites", nCall)
 	return res
+}
+
+// sameReflectValue: the two operands denote the same reflect.Value variable (same SSA value, or
+// loads of the same cell / free variable).
+func sameReflectValue(a, b ssa.Value) bool {
+	if a == b {
+		return true
+	}
+	la, ok1 := a.(*ssa.UnOp)
+	lb, ok2 := b.(*ssa.UnOp)
+	return ok1 && ok2 && la.Op == token.MUL && lb.Op == token.MUL && la.X == lb.X
 }
 
 var _ = types.Typ
